@@ -695,7 +695,11 @@ impl ast::Call {
 
 impl ast::RegexCapture {
     fn evaluate_lazy(&self, exec: &mut ExecutionContext) -> Result<LazyValue, ExecutionError> {
-        let value = exec.current_regex_captures[self.match_index].clone();
+        let value = exec
+            .current_regex_captures
+            .get(self.match_index)
+            .ok_or(ExecutionError::UndefinedRegexCapture(format!("{}", self)))?
+            .clone();
         Ok(value.into())
     }
 }
